@@ -403,6 +403,27 @@ func exec(c proto.Case, o *proto.Out) []string {
 			}
 			args := messages.OnResponse{Headers: map[string]string{}}
 			outs[i] = fmtSpoe(routing.VerifSPOERespActions(args, list))
+		case w[0] == "legacyreq":
+			outs[i] = legacyReq(w[1:])
+			if len(w) > 2 && !strings.HasPrefix(outs[i], "bad-op") {
+				for _, r := range w[2:] {
+					o.Count("legacy-req:" + strings.SplitN(r, "=", 2)[0])
+				}
+			}
+			if len(w) > 3 {
+				nontrivial = true
+			}
+			if strings.Contains(outs[i], "return_early_response") {
+				o.Count("legacy-req-early")
+				if strings.Contains(outs[i], "x-lunar-retry-after") {
+					o.Count("legacy-req-early-modified-by-response-remedy")
+				}
+			}
+		case w[0] == "legacyresp":
+			outs[i] = legacyResp(w[1:])
+			if len(w) > 3 {
+				nontrivial = true
+			}
 		case w[0] == "reqpolicy" || w[0] == "resppolicy":
 			var list []any
 			errAns := ""
@@ -618,6 +639,73 @@ func enumeratePolicy(emit func(proto.Case)) {
 		"reqpolicy a", "resppolicy b", "resppolicy c", "reqpolicy d", "reqpolicy b", "resppolicy a", "reqpolicy nobody"}})
 }
 
+// enumerateLegacy: legacy (policies) mode dispatch.  ALL remedy lists of length <= maxLen over an
+// alphabet producing every action kind the legacy plugins can answer (no-op, early response,
+// ModifyRequest from two plugins, GenerateRequest; response side no-op and header-only ModifyResponse),
+// each with and without the early-response trigger (so that the response-side remedies re-run on the
+// gateway-made answer), plus all response dispatches for three statuses, plus random longer lists.
+func enumerateLegacy(maxLen int, r *prng.R, emit func(proto.Case)) {
+	alpha := []string{"fixed=418", "fixed=503", "acct=" + hA, "acct=" + hB, "acct=_", "apikey=k|K;x|3",
+		"oauth=s3cr3t", "retry=5,400,499", "retry=7,0,599"}
+	id := 0
+	idx := make([]int, 0, maxLen)
+	var rec func()
+	rec = func() {
+		line := ""
+		for _, i := range idx {
+			line += " " + alpha[i]
+		}
+		id++
+		ops := []string{"legacyreq h=early-response|true;q|Q" + line, "legacyreq h=q|Q;x|0" + line}
+		if len(idx) <= 3 {
+			ops = append(ops, "legacyresp status=418"+line, "legacyresp status=200"+line)
+		}
+		emit(proto.Case{ID: fmt.Sprintf("el%d", id), Ops: ops})
+		if len(idx) == maxLen {
+			return
+		}
+		for i := range alpha {
+			idx = append(idx, i)
+			rec()
+			idx = idx[:len(idx)-1]
+		}
+	}
+	rec()
+	for k := 0; k < 400; k++ {
+		rr := r.Fork()
+		n := rr.Range(1, 8)
+		line := ""
+		for j := 0; j < n; j++ {
+			switch rr.Intn(6) {
+			case 0:
+				line += fmt.Sprintf(" fixed=%d", prng.Pick(rr, []int{200, 418, 429, 503}))
+			case 1:
+				line += " acct=" + genHdrs(rr, 10)
+			case 2:
+				line += " apikey=" + genHdrs(rr, 10)
+			case 3:
+				line += " oauth=" + prng.Pick(rr, []string{"s3cr3t", "t", "A1"})
+			default:
+				lo := prng.Pick(rr, []int{0, 200, 400, 418, 500})
+				line += fmt.Sprintf(" retry=%d,%d,%d", rr.Intn(40), lo, lo+prng.Pick(rr, []int{0, 18, 99, 599}))
+			}
+		}
+		h := genHdrs(rr, 0)
+		if rr.Chance(60) {
+			if h == "_" {
+				h = "early-response|true"
+			} else {
+				h += ";early-response|true"
+			}
+		}
+		emit(proto.Case{ID: fmt.Sprintf("gl%d", k+1), Ops: []string{"legacyreq h=" + h + line,
+			fmt.Sprintf("legacyresp status=%d", prng.Pick(rr, []int{0, 200, 418, 499, 500})) + line}})
+	}
+	emit(proto.Case{ID: "lx1", Ops: []string{"legacyreq", "legacyreq h=_", "legacyreq h=_ bogus=1", "legacyreq x=1 fixed=418",
+		"legacyreq h=_ oauth=a%20b", "legacyreq h=_ retry=1,2", "legacyresp", "legacyresp status=zz", "legacyresp status=200",
+		"legacyresp status=200 fixed=x"}})
+}
+
 var keyPool = []string{"x", "a", "b", "x-lunar", "X", "a-b", "content-type", "é"}
 var valPool = []string{"1", "2", "", "v", "a b", "k=v;w|z", "100%", "é", "http://h/p?q", "t:1:2"}
 var unsafeKeys = []string{"a:b", "k\nz", ":", "", "bad name", "k\r", "x(y)"}
@@ -780,9 +868,12 @@ func gen(r *prng.R, f proto.Flags, emit func(proto.Case)) {
 	enumerate("eq", reqReps, "rq", "reqstart", "reqsite", reqLen, emit)
 	enumerate("es", respReps, "rs", "respstart", "respsite", respLen, emit)
 	enumerateAliased(reqLen, emit)
+	legacyLen := 3
 	if f.Tier == "thorough" {
 		enumeratePolicy(emit)
+		legacyLen = 4
 	}
+	enumerateLegacy(legacyLen, r.Fork(), emit)
 	nRand *= f.Budget
 	for k := 0; k < nRand; k++ {
 		emit(genRandom(r.Fork(), fmt.Sprintf("g%d", k+1), randLen))
